@@ -43,10 +43,58 @@ def rv(f):
     return z3.RealVal(f.numerator) / z3.RealVal(f.denominator)
 
 
+class Q(Fraction):
+    """exact rational handed to the code under test in concrete (replay) mode.
+
+    A ``Fraction`` whose arithmetic absorbs ``float`` operands exactly (every float is a dyadic
+    rational) and keeps the subclass, so that library-internal constants such as ``1/2 -> 0.5``
+    cannot silently turn an exact replay into a rounded one.  Replays therefore have exactly the
+    arithmetic model of the symbolic run: the rationals."""
+    __slots__ = ()
+
+    @staticmethod
+    def _co(o):
+        if isinstance(o, Fraction): return o
+        if isinstance(o, bool): return Fraction(int(o))
+        if isinstance(o, int): return Fraction(o)
+        if isinstance(o, float) and o == o and o not in (float('inf'), float('-inf')): return Fraction(o)
+        try:
+            import numpy as np
+            if isinstance(o, np.integer): return Fraction(int(o))
+            if isinstance(o, np.floating): return Fraction(float(o))
+        except ImportError:
+            pass
+        return None
+
+    def _bin(self, o, f, swap=False):
+        q = Q._co(o)
+        if q is None: return NotImplemented
+        a, b = (q, Fraction(self)) if swap else (Fraction(self), q)
+        return Q(f(a, b))
+    def __add__(self, o): return self._bin(o, lambda a, b: a + b)
+    def __radd__(self, o): return self._bin(o, lambda a, b: a + b, True)
+    def __sub__(self, o): return self._bin(o, lambda a, b: a - b)
+    def __rsub__(self, o): return self._bin(o, lambda a, b: a - b, True)
+    def __mul__(self, o): return self._bin(o, lambda a, b: a * b)
+    def __rmul__(self, o): return self._bin(o, lambda a, b: a * b, True)
+    def __truediv__(self, o): return self._bin(o, lambda a, b: a / b)
+    def __rtruediv__(self, o): return self._bin(o, lambda a, b: a / b, True)
+    def __neg__(self): return Q(-Fraction(self))
+    def __pos__(self): return self
+    def __abs__(self): return Q(abs(Fraction(self)))
+    def __pow__(self, k):
+        if isinstance(k, Fraction) and k.denominator == 1: k = int(k)
+        if isinstance(k, int): return Q(Fraction(self) ** k)
+        return Fraction(self) ** k
+    def __hash__(self): return Fraction.__hash__(self)
+    def __eq__(self, o): return Fraction.__eq__(self, o)
+    def __reduce__(self): return (Q, (self.numerator, self.denominator))
+    def __repr__(self): return 'Q(%s)' % Fraction.__str__(self)
+
+
 def num(f):
-    """Fraction -> int when integral (plain numbers handed to the code under test)"""
-    f = Fraction(f)
-    return int(f) if f.denominator == 1 else f
+    """model value -> exact plain number handed to the code under test"""
+    return Q(f)
 
 
 class Ctx:
@@ -378,7 +426,7 @@ def z3val_to_frac(v):
 def to_poly(o):
     if isinstance(o, Sym): return o.p
     if isinstance(o, bool): return {(): Fraction(1)} if o else {}
-    if isinstance(o, (int, Fraction)): return {(): Fraction(o)} if o else {}
+    if isinstance(o, (int, Fraction)): return {(): Fraction(o.numerator, o.denominator)} if o else {}
     if isinstance(o, float):
         if o != o or o in (float('inf'), float('-inf')): return None
         return {(): Fraction(o)} if o else {}
